@@ -21,6 +21,7 @@ import (
 	"fmt"
 	"io"
 	"net"
+	"os"
 	"runtime"
 	"sort"
 	"strings"
@@ -63,7 +64,7 @@ func genNetCase(rt *rapid.T) NetCase {
 	}
 	n := rapid.IntRange(0, 3).Draw(rt, "peers")
 	for i := 0; i < n; i++ {
-		c.Peers = append(c.Peers, rapid.SampledFrom([]string{"real", "out-silent", "out-silent", "in-silent", "in-silent", "out-closed", "unreachable", "tell-in-onkill"}).Draw(rt, "peer"))
+		c.Peers = append(c.Peers, rapid.SampledFrom([]string{"unreachable", "real", "out-silent", "in-silent", "out-closed", "unreachable", "tell-in-onkill", "out-silent", "in-silent"}).Draw(rt, "peer"))
 	}
 	return c
 }
@@ -395,6 +396,20 @@ func checkNet(fatalf func(string, ...any), c NetCase) {
 	}
 }
 
+// shapes every run starts with (the generator draws them, but not in every short run): a send that is inside the
+// reconnect back-off when the system is stopped / its context cancelled, and an actor that sends to an unreachable peer
+// while it terminates
+var netShapes = []NetCase{
+	{Peers: []string{"unreachable"}, How: "stop"},
+	{Peers: []string{"unreachable"}, How: "cancel"},
+	{Peers: []string{"tell-in-onkill", "unreachable"}, How: "stop"},
+}
+
 func TestC07StopWithRemoting(t *testing.T) {
+	if os.Getenv("VERIF_SHARD") == "" || os.Getenv("VERIF_SHARD") == "0" {
+		for _, c := range netShapes {
+			checkNet(t.Fatalf, c)
+		}
+	}
 	rapid.Check(t, func(rt *rapid.T) { checkNet(rt.Fatalf, genNetCase(rt)) })
 }
